@@ -131,6 +131,9 @@ func (e *esdtTransferParser) parseMultiESDTNFTTransfer(sndAddr, rcvAddr []byte, 
 		isTxAtSender = true
 	}
 
+	if !numOfTransfer.IsUint64() || numOfTransfer.Uint64() > uint64(len(args))/ArgsPerTransfer {
+		return nil, ErrNotEnoughArguments
+	}
 	minLenArgs := ArgsPerTransfer*numOfTransfer.Uint64() + startIndex
 	if uint64(len(args)) < minLenArgs {
 		return nil, ErrNotEnoughArguments
@@ -174,6 +177,9 @@ func (e *esdtTransferParser) createNewESDTTransfer(
 			err := e.marshalizer.Unmarshal(transferESDTData, args[tokenStartIndex+2])
 			if err != nil {
 				return nil, err
+			}
+			if transferESDTData.Value == nil {
+				return nil, ErrNotEnoughArguments
 			}
 			esdtTransfer.ESDTValue.Set(transferESDTData.Value)
 		}
